@@ -342,6 +342,13 @@ def saturate(guard):
     """Close a conjunction of literals under unit propagation through its disjunctive literals
     (implications recorded at merges: `cond => extra` is the literal (not cond or extra))."""
     g = set(guard)
+    # compound literals are also recorded through their De Morgan dual
+    for a, pol in list(g):
+        if isinstance(a, tuple) and a and a[0] in ("and", "or"):
+            try:
+                g.add((neg_atom(a), not pol))
+            except Exception:
+                pass
     # orderings: not (d < 0) <=> -d <= 0 ; d < 0 => d <= 0
     for a, pol in list(g):
         if isinstance(a, tuple) and a and a[0] == "cmp" and len(a) == 3 and a[1] in ("<", "<="):
@@ -439,6 +446,15 @@ def lit_holds(guard, atom, pol=True):
     plus unit propagation; no solver."""
     atom = canon(atom)
     g = guard if isinstance(guard, _Sat) else _Sat(saturate(guard))
+    if (atom, pol) in g:
+        return True
+    if isinstance(atom, tuple) and atom and atom[0] in ("and", "or", "not"):
+        # the same fact stated through its De Morgan dual
+        try:
+            if (neg_atom(atom), not pol) in g:
+                return True
+        except Exception:
+            pass
     for l in _lits(atom, pol):
         if not _entails(g, l):
             return False
